@@ -20,6 +20,20 @@ The check has three legs.
      values and identical translated dicts - slots: hide, rename, explicit order, fixed top/bottom,
      sort by opposing element / opposing (derived) insertion.
  (3) thorough tier: exhaustive small scope, <= 4 items x every spelling x every slot.
+
+Left-over transforms dicts (added for seeded change C19-5: `shimmed_dimension_transforms_dict` read the
+order dict once into a local and rebuilt `shim["order"]` from that stale local in the fixed-list step, so
+the already translated `element_ids` were dropped whenever the same order dict also had a non-empty
+`fixed` list).  The generator used to put every reference slot into a transforms dict of its own shape
+(an order dict held EITHER `element_ids` OR `fixed`); the property quantifies over every slot that takes
+a reference, and a dict may carry several at once - what a client that switches between manual order and
+sort-by-value leaves behind.  Class added (`gen_leftover_slots`, own random stream `seed + 3`, the
+exhaustive scope and the datetime leg): ONE order dict with `element_ids` AND `fixed` top/bottom with
+either kind in force (type explicit: `explicit+fixed`, type label: `sort+element_ids`), explicit ids
+next to left-over sort keys (`explicit+sort-keys`), optionally with an `elements` dict, `insertions` and
+an order on the opposing dimension in the same transforms.  All three legs run on them: model `shim_xf`
+vs the dict the dimension uses, model `consume` vs displayed order (by the order type in force), alias
+spelling vs re-spelled variants.  Recorded in the distribution as `leftover:*` / `dt-relational:slot=*`.
 """
 import copy
 import json
@@ -238,6 +252,26 @@ def build_transforms(case, slots):
         if bottom is not None:
             order["fixed"]["bottom"] = list(bottom)
         a["order"] = order
+    lo = slots.get("leftover")
+    if lo:
+        # ONE order dict that carries what several order kinds need (see LEFTOVER_CLASSES): the keys the
+        # order type in force does not read are left-overs of the order it replaced
+        order = {"type": lo["otype"]}
+        order.update(copy.deepcopy(lo.get("order_keys") or {}))
+        if "explicit" in slots:
+            order["element_ids"] = list(slots["explicit"])
+        if "fixed" in slots:
+            top, bottom, direction = slots["fixed"]
+            if lo["otype"] != "explicit":
+                order["direction"] = direction      # the sort in force; expected_order reads it
+            order["fixed"] = {}
+            if top is not None:
+                order["fixed"]["top"] = list(top)
+            if bottom is not None:
+                order["fixed"]["bottom"] = list(bottom)
+        a["order"] = order
+        if lo.get("insertions") is not None:
+            a["insertions"] = copy.deepcopy(lo["insertions"])
     if "opposing" in slots and case["okey"]:
         typ, x = slots["opposing"]
         measure = "mean" if case["values"] == "means" else (
@@ -289,10 +323,69 @@ def gen_slots(rng, case, eq, malformed=False):
     return slots
 
 
+# "Left-over" transforms: ONE dimension-transforms dict / ONE order dict that carries several reference
+# slots at once, because a client that lets the user switch between manual order, sort by label / value
+# and hide / rename keeps what the previous setting left behind.  Every member is a legal transforms dict;
+# the order type in force decides which list is read, the translation must rewrite ALL of them.
+LEFTOVER_CLASSES = ["explicit+fixed", "explicit+fixed", "sort+element_ids", "explicit+sort-keys"]
+LEFTOVER_INSERTIONS = [
+    [],
+    [{"function": "subtotal", "name": "Left over", "args": [9001, 9002], "anchor": "top"}],
+    [{"function": "subtotal", "name": "Left over", "args": [9001], "anchor": "bottom", "id": 7},
+     {"function": "subtotal", "name": "Gone", "args": [9003, 9004], "anchor": 9001}],
+]
+
+
+def leftover_descriptor(rng, klass, with_insertions):
+    """What is in force (`otype`) and what is left behind next to the reference lists."""
+    keys = {}
+    if klass == "explicit+sort-keys" or rng.random() < 0.3:
+        keys["direction"] = rng.choice(["ascending", "descending"])
+        if rng.random() < 0.5:
+            keys["measure"] = rng.choice(["col_percent", "row_percent", "count_unweighted"])
+    return {"class": klass, "otype": "label" if klass == "sort+element_ids" else "explicit",
+            "order_keys": {} if klass == "sort+element_ids" else keys,
+            "insertions": copy.deepcopy(rng.choice(LEFTOVER_INSERTIONS)) if with_insertions else None}
+
+
+def gen_leftover_slots(rng, case, eq):
+    """Slot contents (as (item, spelling) lists, ALIAS spelling - the variants re-spell them) of a
+    left-over transforms dict: explicit `element_ids` AND non-empty `fixed` lists in one order dict
+    (either kind in force), explicit ids next to sort keys, optionally an `elements` dict, `insertions`
+    and an order on the opposing dimension in the same transforms."""
+    n = len(case["adim"]["items"])
+    klass = rng.choice(LEFTOVER_CLASSES)
+    slots = {"leftover": leftover_descriptor(rng, klass, rng.random() < 0.4)}
+    slots["explicit"] = pick_refs(rng, eq, n, rng.randint(1, n + 1), p_stale=0.1, spelled="alias")
+    if klass != "explicit+sort-keys":
+        top = pick_refs(rng, eq, n, rng.randint(0, 2), p_stale=0.1, spelled="alias")
+        bot = pick_refs(rng, eq, n, rng.randint(0, 2), p_stale=0.1, spelled="alias")
+        if not top and not bot:
+            (top if rng.random() < 0.5 else bot).extend(pick_refs(rng, eq, n, 1, p_stale=0.0, spelled="alias"))
+        r = rng.random()
+        slots["fixed"] = (top if (top or r < 0.5) else None, bot if (bot or r >= 0.5) else None,
+                          rng.choice(["ascending", "descending"]))
+    if rng.random() < 0.5:
+        refs = pick_refs(rng, eq, n, rng.randint(1, min(3, n + 1)), spelled="alias")
+        seen, uniq = set(), []
+        for k, x in refs:
+            key = (type(x).__name__, x)
+            if x is not None and key not in seen:
+                seen.add(key)
+                uniq.append((k, x))
+        slots["elements"] = [(k, x, rng.choice(PAYLOADS)) for k, x in uniq]
+        slots["keymode"] = None
+    if case["okey"] and rng.random() < 0.3:
+        slots["opposing"] = ("opposing_element", pick_refs(rng, eq, n, 1, spelled="alias")[0])
+    return slots
+
+
 def spell(slots, respell=None):
     """Concrete slot contents.  respell(item, spelling) -> spelling (identity if None)."""
     f = respell or (lambda k, x: x)
     out = {}
+    if "leftover" in slots:
+        out["leftover"] = slots["leftover"]
     if "elements" in slots:
         e = {}
         used = set()
@@ -320,7 +413,7 @@ def spell(slots, respell=None):
 
 
 def slot_names(slots):
-    return sorted(s for s in slots if s != "keymode")
+    return sorted(s for s in slots if s not in ("keymode", "leftover"))
 
 
 # ------------------------------------------------------------------------------------
@@ -369,7 +462,8 @@ def expected_order(case, view, payloads, slots_c):
             labels[i] = str(p["name"]) if p["name"] else ""
         else:
             labels[i] = items[i]["name"] or ""
-    if "explicit" in slots_c:
+    otype = (slots_c.get("leftover") or {}).get("otype")     # left-over dicts: the order type in force
+    if "explicit" in slots_c and otype in (None, "explicit"):
         seq, seen = [], set()
         for i in view["order"]:
             if i in rank and i not in seen:
@@ -377,7 +471,7 @@ def expected_order(case, view, payloads, slots_c):
                 seq.append(i)
         seq += [i for i in valid if i not in seen]
         return [rank[i] for i in seq if i not in hidden]
-    if "fixed" in slots_c:
+    if "fixed" in slots_c and otype in (None, "label"):
         top = [i for i in view["top"] if i in rank]
         bot = [i for i in view["bottom"] if i in rank]
         if len(set(top + bot)) != len(top + bot):
@@ -497,6 +591,22 @@ def run(tier, seed):
                     variants.append(v)
         jobs.append({"case": case, "slots": slots, "base": base, "variants": variants,
                      "malformed": malformed, "exhaustive": False})
+    # left-over transforms dicts (several reference slots in ONE order / transforms dict): own stream, so
+    # that the single-slot stream above stays what it was; base = alias spelling, variants re-spelled
+    rng3 = random.Random(seed + 3)
+    for ci, case in enumerate(cases):
+        if case.get("dead") or not case["adim"]["items"] or rng3.random() >= (0.45 if not thorough else 0.6):
+            continue
+        slots = gen_leftover_slots(rng3, case, case["eq"])
+        base = spell(slots)
+        variants = []
+        eqs = case["eq"]
+        for _v in range(2 if not thorough else 3):
+            v = spell(slots, lambda k, x: x if k is None or not eqs[k] else rng3.choice(eqs[k]))
+            if not v.pop("invalid", False):
+                variants.append(v)
+        jobs.append({"case": case, "slots": slots, "base": base, "variants": variants,
+                     "malformed": False, "exhaustive": False})
     for case, exjobs in exhaustive:
         if case.get("dead"):
             continue
@@ -547,7 +657,10 @@ def run(tier, seed):
         "negative, sub-variable ids zero-padded / digit strings colliding with element ids / names, "
         "aliases occasionally colliding with other spellings or absent, items occasionally missing; "
         "transforms: hide/rename keys (key modes none/alias/subvar_id/other), explicit order, fixed "
-        "top/bottom under label sort, sort by opposing element / opposing derived insertion; ~15% stale "
+        "top/bottom under label sort, sort by opposing element / opposing derived insertion; left-over "
+        "dicts on ~45% of the dimensions (one order dict with element_ids AND fixed lists under type "
+        "explicit / label, explicit ids next to sort keys, +- elements dict, insertions, opposing order; "
+        "base = alias spelling, 2-3 re-spelled variants); ~15% stale "
         "and ~10% malformed cases (None, '', '1x', '+1'); non-trivial = a case with >= 1 reference "
         "re-spelled by a non-alias spelling or a translate battery with >= 1 non-alias hit; distinct by "
         "content hash")
@@ -555,7 +668,8 @@ def run(tier, seed):
     rep.cov["exhaustive_scope"] = {
         "scope": "plain MR (with and without insertion flag) and CA dimensions with 1..%d items x every "
                  "item x spellings {alias, subvar id, int id, str id, position int/str when valid} x "
-                 "slots {hide, rename, explicit, fixed top, fixed bottom, opposing element}"
+                 "slots {hide, rename, explicit, fixed top, fixed bottom, opposing element, and the "
+                 "left-over dicts explicit+fixed, sort+element_ids, elements+order+insertions}"
                  % (2 if not thorough else 4),
         "jobs": sum(1 for j in jobs if j["exhaustive"])}
     rep.cov["datetime"] = dt_stats
@@ -696,6 +810,19 @@ def check_job(rep, job):
                            "variant": core.jsonable(used[1])}, {"what": "relational-dict", "wf": case["wf"]})
     for s in slot_names(job["slots"]):
         rep.dist("slot=" + s)
+    lo = job["slots"].get("leftover")
+    if lo:
+        rep.dist("leftover:" + lo["class"])
+        if "elements" in job["slots"]:
+            rep.dist("leftover:+elements-dict")
+        if lo.get("insertions") is not None:
+            rep.dist("leftover:+insertions")
+        if "opposing" in job["slots"]:
+            rep.dist("leftover:+opposing-order")
+        tdim = job["tr_base"].get(akey) or {}
+        _e, ids, top, bot = U.xf_parts(tdim)
+        if ids and (top or bot):
+            rep.dist("leftover:order-dict-with-element_ids-and-non-empty-fixed")
     if job["malformed"]:
         rep.dist("malformed-stream")
     rep.sample({"layout": case["layout"], "transforms": trs[0],
@@ -748,7 +875,8 @@ def exhaustive_jobs(case):
     for k in range(len(al)):
         alts = [x for x in eq[k] if not U.py_eq(x, al[k])]
         other = (k + 1) % len(al)
-        for slot in ("hide", "rename", "explicit", "top", "bottom", "opposing"):
+        for slot in ("hide", "rename", "explicit", "top", "bottom", "opposing",
+                     "explicit+fixed", "sort+element_ids", "elements+order+insertions"):
             if slot == "opposing" and not case["okey"]:
                 continue
             if slot == "hide":
@@ -761,6 +889,24 @@ def exhaustive_jobs(case):
                 slots = {"fixed": ([(k, al[k])], None, "ascending")}
             elif slot == "bottom":
                 slots = {"fixed": (None, [(k, al[k])], "descending")}
+            elif slot == "explicit+fixed":
+                # manual order in force, the fixed lists of the sort it replaced left behind
+                slots = {"explicit": [(k, al[k]), (other, al[other])],
+                         "fixed": ([(other, al[other])], [(k, al[k])], "descending"),
+                         "leftover": {"class": slot, "otype": "explicit",
+                                      "order_keys": {"direction": "descending"}, "insertions": None}}
+            elif slot == "sort+element_ids":
+                # sort by label with fixed lists in force, the manual order it replaced left behind
+                slots = {"explicit": [(other, al[other]), (k, al[k])],
+                         "fixed": ([(k, al[k])], None, "ascending") if k % 2 == 0 else
+                                  (None, [(k, al[k])], "ascending"),
+                         "leftover": {"class": slot, "otype": "label", "order_keys": {}, "insertions": None}}
+            elif slot == "elements+order+insertions":
+                slots = {"elements": [(k, al[k], {"name": "Renamed"})], "keymode": None,
+                         "explicit": [(k, al[k]), (other, al[other])],
+                         "fixed": ([(k, al[k])], None, "ascending"),
+                         "leftover": {"class": slot, "otype": "explicit", "order_keys": {},
+                                      "insertions": copy.deepcopy(LEFTOVER_INSERTIONS[1])}}
             else:
                 slots = {"opposing": ("opposing_element", (k, al[k]))}
             base = spell(slots)
@@ -785,7 +931,8 @@ def g_dtdim(els):
 
 
 MISSING_LAYOUTS = ["none", "first", "middle", "last", "several", "first", "middle", "several"]
-DT_SLOTS = ("hide", "rename", "explicit", "fixed-top", "fixed-bottom", "opposing")
+DT_SLOTS = ("hide", "rename", "explicit", "fixed-top", "fixed-bottom", "opposing",
+            "explicit+fixed", "sort+element_ids")       # the last two: left-over order dicts
 
 
 def layout_missing(rng, dt):
@@ -831,6 +978,14 @@ def dt_transforms(case, slot, x, stale, others):
         return {akey: {"order": {"type": "label", "direction": "descending", "fixed": {"top": [x]}}}}
     if slot == "fixed-bottom":
         return {akey: {"order": {"type": "label", "direction": "ascending", "fixed": {"bottom": [x]}}}}
+    if slot == "explicit+fixed":
+        # manual order in force; the fixed lists (and direction) of the sort it replaced left behind
+        return {akey: {"order": {"type": "explicit", "element_ids": [stale, x] + others[:1],
+                                 "direction": "descending", "fixed": {"top": others[:1] or [x], "bottom": [x]}}}}
+    if slot == "sort+element_ids":
+        # sort by label with a fixed list in force; the manual order it replaced left behind
+        return {akey: {"order": {"type": "label", "direction": "descending", "fixed": {"top": [x]},
+                                 "element_ids": others[:1] + [x]}}}
     if slot == "opposing":
         if not okey:
             return None
@@ -846,10 +1001,10 @@ def dt_absolute_check(slot, rank, other_rank, base_order):
         return ["order", [r for r in base_order if r != rank]]
     if slot == "rename":
         return ["label", base_order.index(rank), "Renamed"]
-    if slot == "explicit":
+    if slot in ("explicit", "explicit+fixed"):
         head = [rank] + ([other_rank] if other_rank is not None else [])
         return ["order", head + [r for r in base_order if r not in head]]
-    if slot == "fixed-top":
+    if slot in ("fixed-top", "sort+element_ids"):
         return ["first", rank]
     if slot == "fixed-bottom":
         return ["last", rank]
